@@ -18,7 +18,16 @@ package meter
 //@ iface Progress.Done
 //@   modifies fieldmem(progressMeter.ticker)
 
+// time.NewTicker panics for a non-positive period: the period is fixed by the
+// constructor (A-METER-PERIOD: a progressMeter is only made by
+// NewProgressMeter, whose precondition is a positive period — an obligation at
+// its call site in main).
+//@ func NewProgressMeter
+//@   requires period > 0
+//@   pure
+//@   ensures result != nil && dyntype(result, "*meter.progressMeter") && unbox(result, "*meter.progressMeter").period == period && unbox(result, "*meter.progressMeter").w == w
 //@ func (*progressMeter).Start
+//@   requires @assume:A-METER-PERIOD p.period > 0
 //@   modifies fieldmem(progressMeter.format), fieldmem(progressMeter.lastShownCount), fieldmem(progressMeter.spinnerIndex), fieldmem(progressMeter.ticker), fieldmem(progressMeter.count)
 //@ func (*progressMeter).Inc
 //@   modifies fieldmem(progressMeter.count)
@@ -53,4 +62,4 @@ package meter
 //@ func (noProgressMeter).Done
 //@   pure
 
-//@ property C18: (*progressMeter).Start$1 (*progressMeter).Start (*progressMeter).Inc (*progressMeter).Add (*progressMeter).Done (noProgressMeter).Start (noProgressMeter).Inc (noProgressMeter).Add (noProgressMeter).Done
+//@ property C18: NewProgressMeter (*progressMeter).Start$1 (*progressMeter).Start (*progressMeter).Inc (*progressMeter).Add (*progressMeter).Done (noProgressMeter).Start (noProgressMeter).Inc (noProgressMeter).Add (noProgressMeter).Done
